@@ -56,6 +56,11 @@ def _member_fault(data, kind, rng):
         return iwa.frame(b"\xff" * 12 + b"\x01\x02", [14])
     if kind == "bad-archive-info":
         return iwa.frame(iwa.varint(6) + b"\xff\xff\xff\xff\xff\xff" + b"abc", [10])
+    if kind == "no-messages":
+        from numbers_parser.generated.TSPArchiveMessages_pb2 import ArchiveInfo
+        hdr = ArchiveInfo(identifier=987655).SerializeToString()
+        st = iwa.varint(len(hdr)) + hdr
+        return iwa.frame(st, [len(st)])
     if kind == "unknown-type":
         from numbers_parser.generated.TSPArchiveMessages_pb2 import ArchiveInfo
         info = ArchiveInfo(identifier=987654)
@@ -85,6 +90,15 @@ def materialise(src, faults, rng, out_base, nested=False):
                 members[i] = (members[i][0], _member_fault(members[i][1], k, rng))
     if "bad-plist" in kinds:
         members = [(n, b"not a plist" if n.endswith("Metadata/Properties.plist") else d) for n, d in members]
+    if "plist-xml-garbage" in kinds:
+        members = [(n, b"<?xml version='1.0'?><plist><dict><key>fileFormatVers" if n.endswith("Metadata/Properties.plist") else d) for n, d in members]
+    if "plist-no-version" in kinds:
+        import plistlib
+        members = [(n, plistlib.dumps({"revision": "0::0"}) if n.endswith("Metadata/Properties.plist") else d) for n, d in members]
+    if "plist-version-type" in kinds:
+        import plistlib
+        members = [(n, plistlib.dumps(rng.choice([{"fileFormatVersion": 14}, ["fileFormatVersion", "14.1"], {"fileFormatVersion": b"14.1"}]))
+                    if n.endswith("Metadata/Properties.plist") else d) for n, d in members]
     if "missing-plist" in kinds:
         members = [(n, d) for n, d in members if not n.endswith("Metadata/Properties.plist")]
     if "encrypted" in kinds:
